@@ -3,7 +3,7 @@
 (*                                                                               *)
 (* A script is a sequence of declarations; every declaration is a record with    *)
 (* the same fields:                                                              *)
-(*   kind  : "exe" | "slib" | "shlib" | "step" | "copy" | "alias" | "cmd" |      *)
+(*   kind  : "exe" | "slib" | "shlib" | "dlib" | "step" | "copy" | "alias" | "cmd" | *)
 (*           "test" | "default" | "install"                                      *)
 (*   name  : target name (unique)                                                *)
 (*   srcs  : sequence of sources: "s1" "s2" "s3" (files s1.c ...) or "g:<step>"  *)
@@ -31,6 +31,10 @@
 (*           creates the precompiled-header step itself; it consumes the header    *)
 (*           file pch_<name>.h and every generated header passed as includes=,     *)
 (*           and every object of the target consumes its output                    *)
+(* kind "dlib": library() under --enable-shared --enable-static - a dual-use library: ONE set   *)
+(*   of objects, a shared half (the step named like the target; what programs and shared       *)
+(*   libraries link) and an archive half (the step ArName(name), made from the same objects).  *)
+(*   Passing the library to default() / install() (or the implicit default set) asks for both. *)
 (* Header h1.h is included by s1.c and s2.c and is never named in the script.    *)
 EXTENDS Naturals, Sequences, FiniteSets, TLC
 
@@ -39,9 +43,11 @@ Prefix(str, p) == Len(str) >= Len(p) /\ SubSeq(str, 1, Len(p)) = p   \* on seque
 
 Names(script) == { script[i].name : i \in 1..Len(script) }
 Decl(script, nm) == script[CHOOSE i \in 1..Len(script) : script[i].name = nm]
-IsTarget(d) == d.kind \in {"exe", "slib", "shlib", "step", "copy", "alias", "cmd"}
+IsTarget(d) == d.kind \in {"exe", "slib", "shlib", "dlib", "step", "copy", "alias", "cmd"}
 Targets(script) == { script[i].name : i \in { j \in 1..Len(script) : IsTarget(script[j]) } }
-Linked(d) == d.kind \in {"exe", "slib", "shlib"}
+Linked(d) == d.kind \in {"exe", "slib", "shlib", "dlib"}
+ArName(nm) == nm \o "_a"
+Duals(script) == { nm \in Targets(script) : Decl(script, nm).kind = "dlib" }
 
 \* references: "g:x" / "o:x" name the target x; the harness writes them as records to keep TLA+ simple
 \* src / in element = [f |-> file name or "", t |-> target name or ""]
@@ -66,7 +72,7 @@ Forward(script, nm) ==
 \* mode "may": additionally what the script merely declares (a static library's libs=)
 DirectTargets(script, d, mode) ==
   TargetsOf(d.srcs) \cup TargetsOf(d.ins) \cup ToSet(d.deps) \cup ToSet(d.xdeps) \cup ToSet(d.cdeps)
-  \cup (IF d.kind \in {"exe", "shlib"} THEN ToSet(d.libs) \cup UNION { Forward(script, l) : l \in ToSet(d.libs) } ELSE {})
+  \cup (IF d.kind \in {"exe", "shlib", "dlib"} THEN ToSet(d.libs) \cup UNION { Forward(script, l) : l \in ToSet(d.libs) } ELSE {})
   \cup (IF d.kind = "slib" /\ mode = "may" THEN ToSet(d.libs) ELSE {})
 
 RECURSIVE Upstream(_, _, _)
@@ -96,8 +102,11 @@ NeededMust(script, goal) == UNION { Upstream(script, g, "must") : g \in GoalSet(
 Always(script) == { nm \in Targets(script) : LET d == Decl(script, nm) IN (d.kind = "step" /\ d.always) \/ d.kind = "cmd" }
 \* copies made as symbolic links: after the first build they need not run again
 SymCopies(script) == { nm \in Targets(script) : LET d == Decl(script, nm) IN d.kind = "copy" /\ d.mode = "symlink" }
-\* targets that have an action (an alias has none)
-Acts(script) == { nm \in Targets(script) : Decl(script, nm).kind # "alias" }
+\* steps that have an action (an alias has none; a dual-use library has two)
+ArActs(script) == { ArName(nm) : nm \in Duals(script) }
+Acts(script) == { nm \in Targets(script) : Decl(script, nm).kind # "alias" } \cup ArActs(script)
+\* the archive halves a goal asks for: only a goal that names the library itself (never a consumer)
+ArNeeded(script, goal) == { ArName(nm) : nm \in Duals(script) \cap GoalSet(script, goal) }
 
 \* compile events: one per (linked target, source) pair
 \* (plus the precompiled header of a pch target: source [f |-> pch_<name>, t |-> ""])
